@@ -1,5 +1,6 @@
 //! Deterministic simulation harness for rosu-pp. See /verif/DESIGN.md.
 pub mod builder;
+pub mod conc;
 pub mod grad;
 pub mod hist;
 pub mod io;
@@ -9,5 +10,7 @@ pub mod prng;
 pub mod runner;
 pub mod seams;
 pub mod spec;
+#[cfg(rosu_pp_verif)]
+pub mod strainsvec;
 pub mod sut;
 pub mod trace;
